@@ -72,6 +72,9 @@ def shards(tier: str, seed: int):
         for k in KINDS:
             out.append(["simple", b.bid, k])
         out.append(["pairs", b.bid])
+    for b in bm.nested_bases(seed, tier):
+        for k in KINDS:
+            out.append(["simple", b.bid, k])
     for b in bm.bases(seed, tier):
         if "/long" not in b.bid and (tier == "thorough" or "/nonce/" in b.bid):
             out.append(["algsub", b.bid])
